@@ -12,7 +12,7 @@
 //!    expression and on the member / mutant strings; tags after a string must be those of the matching
 //!    alternatives; a terminal state must have no accepted extension.
 use serde_json::{Value, json};
-use std::collections::{BTreeSet, HashMap};
+use std::collections::{BTreeSet, HashMap, HashSet};
 use surf_n_term::automata::{DFA, DFAState, NFA};
 use verif_harness::{Cfg, r#gen::Rng, guarded, out::Out, out::hex};
 
@@ -255,23 +255,111 @@ fn oracle_matches(re: &Re, w: &[u8]) -> bool {
     ends(re, w, 0) >> w.len() & 1 == 1
 }
 
-/// expected tag set after `w`, defined only for a top-level choice whose alternatives are optionally
-/// tagged tag-free expressions: the tags of exactly the alternatives that match `w`
+/// expected tag set after `w` for choices (nested to any depth) of optionally tagged tag-free expressions:
+/// the tags of exactly the alternatives that match `w` (C15_tags through C15_tags_choice); `None` when the
+/// expression carries tags in other positions
 fn oracle_tags(re: &Re, w: &[u8]) -> Option<BTreeSet<u64>> {
-    let Alt(es) = re else { return None };
-    let mut tags = BTreeSet::new();
-    for e in es {
-        match e {
-            Tag(t, body) if !body.has_tag() => {
-                if oracle_matches(body, w) {
-                    tags.insert(*t);
-                }
+    match re {
+        Tag(t, body) if !body.has_tag() => {
+            Some(if oracle_matches(body, w) { BTreeSet::from([*t]) } else { BTreeSet::new() })
+        }
+        other if !other.has_tag() => Some(BTreeSet::new()),
+        Alt(es) => {
+            let mut tags = BTreeSet::new();
+            for e in es {
+                tags.extend(oracle_tags(e, w)?);
             }
-            other if !other.has_tag() => {}
-            _ => return None,
+            Some(tags)
+        }
+        _ => None,
+    }
+}
+
+/// `MatcherTag::Matcher(i)` on the wire
+fn mk_tag(i: usize) -> u64 {
+    1000 + i as u64
+}
+
+/// what is checked: an expression, or matchers combined as `MatcherAutomata::new` (decoder.rs) combines them
+enum Subject {
+    Expr(Re),
+    /// `(true, g)`: `Either::Left(g)` -> `g.tags_map(|_| Matcher(i)).tag_stop_state(Matcher(i))`;
+    /// `(false, g)`: `Either::Right(g)` -> `g.tags_map(Item)`
+    Production(Vec<(bool, Re)>),
+}
+
+impl Subject {
+    fn src(&self) -> String {
+        match self {
+            Subject::Expr(re) => re.show(),
+            Subject::Production(ms) => {
+                let mut s = format!("M {}", ms.len());
+                for (parsed, re) in ms {
+                    s.push_str(if *parsed { " L " } else { " R " });
+                    re.tokens(&mut s);
+                }
+                s
+            }
         }
     }
-    Some(tags)
+    fn parse(src: &str) -> Option<Subject> {
+        let toks: Vec<&str> = src.split(' ').collect();
+        let mut it = toks.iter();
+        if toks.first() == Some(&"M") {
+            it.next();
+            let k: usize = it.next()?.parse().ok()?;
+            let mut ms = vec![];
+            for _ in 0..k {
+                let side = *it.next()?;
+                ms.push((side == "L", Re::parse(&mut it)?));
+            }
+            Some(Subject::Production(ms))
+        } else {
+            Re::parse(&mut it).map(Subject::Expr)
+        }
+    }
+    /// the language as one expression (tags do not matter for matching)
+    fn lang(&self) -> Re {
+        match self {
+            Subject::Expr(re) => re.clone(),
+            Subject::Production(ms) => Alt(ms.iter().map(|m| m.1.clone()).collect()),
+        }
+    }
+    /// through the PUBLIC api
+    fn build(&self) -> NFA<u64> {
+        match self {
+            Subject::Expr(re) => re.build(),
+            Subject::Production(ms) => NFA::choice(ms.iter().enumerate().map(|(i, (parsed, re))| {
+                if *parsed {
+                    re.build().tags_map(move |_| mk_tag(i)).tag_stop_state(mk_tag(i))
+                } else {
+                    re.build().tags_map(|t| t)
+                }
+            })),
+        }
+    }
+    /// C15_tags / C15_tags_choice / C15_tags_production_re
+    fn tags(&self, w: &[u8]) -> Option<BTreeSet<u64>> {
+        match self {
+            Subject::Expr(re) => oracle_tags(re, w),
+            Subject::Production(ms) => {
+                let mut tags = BTreeSet::new();
+                for (i, (parsed, re)) in ms.iter().enumerate() {
+                    if *parsed {
+                        if re.has_tag() {
+                            return None;
+                        }
+                        if oracle_matches(re, w) {
+                            tags.insert(mk_tag(i));
+                        }
+                    } else {
+                        tags.extend(oracle_tags(re, w)?);
+                    }
+                }
+                Some(tags)
+            }
+        }
+    }
 }
 
 /* ---------- dumps ---------- */
@@ -375,7 +463,7 @@ fn show_table(t: &Table) -> String {
 const LETTERS: &[u8] = b"abc";
 
 fn gen_atom(rng: &mut Rng) -> Re {
-    match rng.below(12) {
+    match rng.below(14) {
         0..=3 => Lit(vec![*rng.pick(LETTERS)]),
         4 => Lit((0..rng.range(2, 3)).map(|_| *rng.pick(LETTERS)).collect()),
         5 => Lit(vec![]),
@@ -389,6 +477,16 @@ fn gen_atom(rng: &mut Rng) -> Re {
             _ => Pred(vec![(b'a', b'a'), (b'c', b'c')]),
         },
         10 => Empty,
+        // literals are `&str`: multi-byte UTF-8 goes through `From<&str>` byte by byte
+        11 => Lit(rng.pick(&["\u{e9}", "\u{ff}", "a\u{20ac}", "\u{e9}b", "\u{10348}"]).as_bytes().to_vec()),
+        // predicates over the upper half, 0xFF included
+        12 => match rng.below(5) {
+            0 => Pred(vec![(0x80, 0xff)]),
+            1 => Pred(vec![(0xff, 0xff)]),
+            2 => Pred(vec![(0xc3, 0xc3)]),
+            3 => Pred(vec![(0xa9, 0xbf)]),
+            _ => Pred(vec![(b'a', b'a'), (0xfe, 0xff)]),
+        },
         _ => {
             if rng.chance(1, 3) {
                 Nothing
@@ -397,6 +495,22 @@ fn gen_atom(rng: &mut Rng) -> Re {
             }
         }
     }
+}
+
+/// matchers as the decoder registers them: parsed families (tag-free grammars) and item tables
+fn gen_production(rng: &mut Rng, depth: usize) -> Vec<(bool, Re)> {
+    let k = rng.range(1, 4) as usize;
+    (0..k)
+        .map(|_| {
+            if rng.chance(2, 3) {
+                let g = gen_re(rng, depth.saturating_sub(1));
+                // now and then a parsed matcher that carries (erased) tags of its own
+                (true, if rng.chance(1, 8) { sprinkle_tags(rng, g) } else { g })
+            } else {
+                (false, gen_tagged(rng, depth.saturating_sub(1)))
+            }
+        })
+        .collect()
 }
 
 /// operand that begins or ends with a loop (the shapes on which in-place ε-edges go wrong)
@@ -528,6 +642,12 @@ fn corner_cases() -> Vec<Re> {
         plus(tag(5, l("a"))),
         tag(1, tag(2, l("a"))),
         tag(7, Empty),
+        // literals beyond ASCII (`From<&str>` walks bytes), predicates over the upper half
+        l("\u{e9}"),
+        Seq(vec![l("\u{e9}"), plus(Pred(vec![(0x80, 0xff)])), l("a\u{20ac}")]),
+        Alt(vec![tag(1, l("\u{ff}")), tag(2, Pred(vec![(0xff, 0xff)])), tag(3, Seq(vec![Pred(vec![(0xc3, 0xc3)]), Pred(vec![(0x80, 0xbf)])]))]),
+        star(Pred(vec![(0xfe, 0xff)])),
+        Alt(vec![Alt(vec![tag(1, l("a")), tag(2, plus(l("a")))]), Alt(vec![tag(3, l("ab")), tag(1, star(l("a")))]), tag(4, l("b"))]),
         // shapes of the production grammars
         Seq(vec![l("\x1b["), plus(Seq(vec![plus(digit()), opt(l(";"))])), l("m")]),
         Seq(vec![l("\x1b["), plus(digit()), l(";"), plus(digit()), l("R")]),
@@ -546,6 +666,23 @@ fn corner_cases() -> Vec<Re> {
 }
 
 /// one random member of the language (None when the sub-language is empty)
+/// `MatcherAutomata::new` shapes: parsed families next to an item table
+fn production_corner_cases() -> Vec<Vec<(bool, Re)>> {
+    let l = |s: &str| Lit(s.as_bytes().to_vec());
+    let plus = |e: Re| Plus(Box::new(e));
+    let tag = |t: u64, e: Re| Tag(t, Box::new(e));
+    let digit = || Pred(vec![(b'0', b'9')]);
+    let keys = || Alt(vec![tag(1, l("\x1b[A")), tag(2, l("\x1b[B")), tag(3, l("\x1b")), tag(1, l("\x1bOA"))]);
+    vec![
+        vec![(true, Seq(vec![l("\x1b["), plus(digit()), l(";"), plus(digit()), l("R")])), (false, keys())],
+        vec![(false, keys()), (true, Seq(vec![l("\x1b["), plus(digit()), l("A")])), (true, l("\x1b[A"))],
+        vec![(true, l("a")), (true, plus(l("a"))), (true, Empty)],
+        vec![(false, keys())],
+        vec![(true, tag(5, l("a")))],
+        vec![],
+    ]
+}
+
 fn gen_member(re: &Re, rng: &mut Rng, budget: &mut usize) -> Option<Vec<u8>> {
     match re {
         Lit(s) => Some(s.clone()),
@@ -554,7 +691,11 @@ fn gen_member(re: &Re, rng: &mut Rng, budget: &mut usize) -> Option<Vec<u8>> {
                 return None;
             }
             let (lo, hi) = *rng.pick(rs);
-            Some(vec![rng.range(lo as i64, hi as i64) as u8])
+            Some(vec![match rng.below(4) {
+                0 => lo,
+                1 => hi,
+                _ => rng.range(lo as i64, hi as i64) as u8,
+            }])
         }
         Seq(es) => {
             let mut w = vec![];
@@ -597,8 +738,8 @@ fn gen_member(re: &Re, rng: &mut Rng, budget: &mut usize) -> Option<Vec<u8>> {
 fn effective_alphabet(re: &Re) -> Vec<u8> {
     let mut atoms = vec![];
     re.atoms(&mut atoms);
-    let mut seen: HashMap<Vec<bool>, u8> = HashMap::new();
-    let mut reps = vec![];
+    let mut seen: HashMap<Vec<bool>, (u8, u8)> = HashMap::new();
+    let mut order = vec![];
     for b in 0..=255u8 {
         let sig: Vec<bool> = atoms
             .iter()
@@ -608,11 +749,15 @@ fn effective_alphabet(re: &Re) -> Vec<u8> {
                 _ => vec![],
             })
             .collect();
-        if !seen.contains_key(&sig) {
-            seen.insert(sig, b);
-            reps.push(b);
+        match seen.get_mut(&sig) {
+            Some(mm) => mm.1 = b,
+            None => {
+                seen.insert(sig.clone(), (b, b));
+                order.push(sig);
+            }
         }
     }
+    let mut reps: Vec<u8> = order.iter().map(|sig| seen[sig].0).collect();
     // bytes used by the expression first, the "no atom matches" class last
     reps.sort_by_key(|b| {
         let used = atoms.iter().any(|a| match a {
@@ -622,6 +767,13 @@ fn effective_alphabet(re: &Re) -> Vec<u8> {
         });
         (!used, *b)
     });
+    // then the largest byte of every class (0xFF among them), used for members, mutants and extensions
+    for sig in &order {
+        let (lo, hi) = seen[sig];
+        if hi != lo {
+            reps.push(hi);
+        }
+    }
     reps
 }
 
@@ -681,11 +833,22 @@ fn show_obs(o: &Option<(bool, bool, Vec<u64>)>) -> String {
 }
 
 impl Ctx {
-    /// returns false when an oracle failure was recorded
-    fn check_word(&mut self, re: &Re, res: &str, dfa: &DFA<u64>, alphabet: &[u8], w: &[u8]) -> bool {
+    /// returns false when an oracle failure was recorded.  `extended`: proper prefixes of every string of this
+    /// subject (enumerated, member, mutant) that the oracle accepts
+    #[allow(clippy::too_many_arguments)]
+    fn check_word(
+        &mut self,
+        subject: &Subject,
+        lang: &Re,
+        src: &str,
+        dfa: &DFA<u64>,
+        alphabet: &[u8],
+        extended: &HashSet<Vec<u8>>,
+        w: &[u8],
+    ) -> bool {
         let got = guarded(|| (dfa.matches(w.iter().copied()), observe(dfa, w)));
-        let expected = oracle_matches(re, w);
-        let input = json!({"re": res, "word": hex(w)});
+        let expected = oracle_matches(lang, w);
+        let input = json!({"re": src, "word": hex(w)});
         let Ok((got_match, obs)) = got else {
             self.out.fail("DFA API panicked", input, json!(expected), json!("panic"));
             return false;
@@ -706,7 +869,7 @@ impl Ctx {
             self.out.fail("matches differs from is_accepting of the state reached", input.clone(), json!(got_match), json!(acc));
             ok = false;
         }
-        if let Some(exp_tags) = oracle_tags(re, w) {
+        if let Some(exp_tags) = subject.tags(w) {
             let got_tags: BTreeSet<u64> = obs.as_ref().map(|o| o.2.iter().cloned().collect()).unwrap_or_default();
             if got_tags != exp_tags {
                 self.out.fail(
@@ -719,67 +882,91 @@ impl Ctx {
             }
         }
         if let Some((_, true, _)) = obs {
-            // terminal: no byte can extend the match
-            if w.len() + 2 < 60 {
+            // terminal: no byte can extend the match — no enumerated, member or mutant string of this subject
+            // extends `w`, and no string `w b` / `w b c` over the whole effective alphabet does
+            let mut witness: Option<Vec<u8>> = None;
+            if extended.contains(w) {
+                witness = Some(w.to_vec());
+            } else if w.len() + 2 < 60 {
                 'ext: for &b in alphabet {
                     for c in std::iter::once(None).chain(alphabet.iter().map(|c| Some(*c))) {
                         let mut v = w.to_vec();
                         v.push(b);
                         v.extend(c);
-                        if oracle_matches(re, &v) {
-                            self.out.fail(
-                                "state reported terminal although an extension matches",
-                                input.clone(),
-                                json!("not terminal"),
-                                json!({"terminal_after": hex(w), "matching_extension": hex(&v)}),
-                            );
-                            ok = false;
+                        if oracle_matches(lang, &v) {
+                            witness = Some(v);
                             break 'ext;
                         }
                     }
                 }
             }
+            if let Some(v) = witness {
+                self.out.fail(
+                    "state reported terminal although an extension matches",
+                    input.clone(),
+                    json!("not terminal"),
+                    json!({"terminal_after": hex(w), "matching_extension_or_prefix_of_one": hex(&v)}),
+                );
+                ok = false;
+            }
         }
         ok
     }
 
-    fn check_expr(&mut self, re: &Re, rng: &mut Rng, class: &str) {
-        let res = re.show();
-        let nodes = re.nodes();
+    fn check_subject(&mut self, subject: &Subject, rng: &mut Rng, class: &str) {
+        let src = subject.src();
+        let lang = subject.lang();
+        let nodes = lang.nodes();
         let built = guarded(|| {
-            let nfa = re.build();
+            let nfa = subject.build();
             let dfa = nfa.compile();
             (nfa, dfa)
         });
         let Ok((nfa, dfa)) = built else {
-            self.out.fail("building or compiling the automaton panicked", json!({"re": res, "word": "-"}), json!("no panic"), json!("panic"));
+            self.out.fail("building or compiling the automaton panicked", json!({"re": src, "word": "-"}), json!("no panic"), json!("panic"));
             return;
         };
         let dump = dump_nfa(&nfa);
         let table = dfa_table(&dfa);
-        let alphabet = effective_alphabet(re);
-        self.out.case(&res, nodes >= 3);
+        let alphabet = effective_alphabet(&lang);
+        self.out.case(&src, nodes >= 3);
         self.out.hist(&format!("class:{class}"));
-        self.out.hist(&format!("top:{}", re.kind()));
-        self.out.hist(&format!("depth:{}", re.depth()));
+        self.out.hist(&format!("top:{}", lang.kind()));
+        self.out.hist(&format!("depth:{}", lang.depth()));
         self.out.hist(&format!("nfa-states:{}", match nfa.size() { 0..=4 => "1-4", 5..=16 => "5-16", 17..=64 => "17-64", _ => "65+" }));
         self.out.hist(&format!("dfa-states:{}", match table.ids.len() { 0..=2 => "1-2", 3..=8 => "3-8", 9..=32 => "9-32", _ => "33+" }));
+        {
+            let mut atoms = vec![];
+            lang.atoms(&mut atoms);
+            if atoms.iter().any(|a| match a {
+                Lit(s) => s.iter().any(|b| *b >= 0x80),
+                Pred(rs) => rs.iter().any(|(lo, hi)| *hi >= 0x80 && *lo > 0),
+                _ => false,
+            }) {
+                self.out.hist("atoms:bytes>=0x80");
+            }
+        }
         if self.with_corr {
-            // (1) structure, numbering included
-            self.out.corr(&format!("c15 dump {res}"), &dump);
-            if re.has_tag() && nodes % 3 == 0 {
-                // `tags_map` renames tags and nothing else
-                let k = (nodes % 5) as u64 + 1;
-                if let Ok(mapped) = guarded(|| dump_nfa(&re.build().tags_map(|t| t + k))) {
-                    self.out.corr(&format!("c15 dumpmap {k} {res}"), &mapped);
-                    self.out.hist("tags_map");
+            // (1) structure, numbering included …
+            self.out.corr(&format!("c15 dump {src}"), &dump);
+            // … and the class of the difference, should there be one: `equal`, `representation-only …`
+            // (renumbering / other NFA with the same observable DFA) or `different: …`
+            self.out.corr(&format!("c15 dumpcmp {src} | {dump}"), "equal");
+            if let Subject::Expr(re) = subject {
+                if re.has_tag() && nodes % 3 == 0 {
+                    // `tags_map` renames tags and nothing else
+                    let k = (nodes % 5) as u64 + 1;
+                    if let Ok(mapped) = guarded(|| dump_nfa(&re.build().tags_map(|t| t + k))) {
+                        self.out.corr(&format!("c15 dumpmap {k} {src}"), &mapped);
+                        self.out.hist("tags_map");
+                    }
                 }
             }
             // (2) exhaustive bisimulation with the model's subset automaton
             self.out.corr(&format!("c15 bisim {dump} | {}", show_table(&table)), &format!("ok {}", table.ids.len()));
         }
 
-        // exhaustive enumeration over the effective alphabet (shortest failing string first)
+        // all strings over the effective alphabet up to the budgeted length (shortest first) …
         let k = alphabet.len().clamp(1, 5);
         let mut maxlen = 0;
         let mut total = 1usize;
@@ -788,27 +975,19 @@ impl Ctx {
             total += k.pow(maxlen as u32);
         }
         let syms = &alphabet[..k.min(alphabet.len())];
-        let mut failed = false;
+        let mut enumerated: Vec<Vec<u8>> = vec![vec![]];
         let mut level: Vec<Vec<u8>> = vec![vec![]];
-        'outer: for len in 0..=maxlen {
-            for w in &level {
-                self.out.evaluations += 1;
-                if !self.check_word(re, &res, &dfa, &alphabet, w) {
-                    failed = true;
-                    break 'outer;
-                }
-            }
-            if len < maxlen {
-                level = level.iter().flat_map(|w| syms.iter().map(move |s| { let mut v = w.clone(); v.push(*s); v })).collect();
-            }
+        for _ in 0..maxlen {
+            level = level.iter().flat_map(|w| syms.iter().map(move |s| { let mut v = w.clone(); v.push(*s); v })).collect();
+            enumerated.extend(level.iter().cloned());
         }
         self.out.hist(&format!("enum-len:{maxlen}"));
 
-        // (3) members and near-miss mutants
+        // … (3) members and near-miss mutants
         let mut words: Vec<Vec<u8>> = vec![];
         for _ in 0..self.words_per_expr / 3 {
             let mut budget = 6;
-            if let Some(m) = gen_member(re, rng, &mut budget) {
+            if let Some(m) = gen_member(&lang, rng, &mut budget) {
                 let mut m = m;
                 m.truncate(40);
                 for _ in 0..2 {
@@ -825,27 +1004,36 @@ impl Ctx {
         }
         words.sort();
         words.dedup();
+
+        // proper prefixes of everything the oracle accepts: a terminal state must not be reached on any of them
+        let mut extended: HashSet<Vec<u8>> = HashSet::new();
         let mut members = 0;
-        for w in &words {
-            self.out.evaluations += 1;
-            if oracle_matches(re, w) {
+        for w in enumerated.iter().chain(words.iter()) {
+            if oracle_matches(&lang, w) {
                 members += 1;
-            }
-            if !failed && !self.check_word(re, &res, &dfa, &alphabet, w) {
-                failed = true;
+                for n in 0..w.len() {
+                    extended.insert(w[..n].to_vec());
+                }
             }
         }
         self.out.hist(if members == 0 { "members:none" } else { "members:some" });
+
+        for w in enumerated.iter().chain(words.iter()) {
+            self.out.evaluations += 1;
+            if !self.check_word(subject, &lang, &src, &dfa, &alphabet, &extended, w) {
+                break;
+            }
+        }
         if self.with_corr && !words.is_empty() {
             let hexes: Vec<String> = words.iter().map(|w| hex(w)).collect();
             let obs: Vec<String> = words.iter().map(|w| show_obs(&observe(&dfa, w))).collect();
             self.out.corr(&format!("c15 run {dump} | {}", hexes.join(" ")), &obs.join(" "));
             // the verified matcher judges the implementation's verdicts
             let verdicts: Vec<&str> = words.iter().map(|w| if dfa.matches(w.iter().copied()) { "1" } else { "0" }).collect();
-            self.out.oracle(&format!("c15 match {res} | {}", hexes.join(" ")), &verdicts.join(" "));
+            self.out.oracle(&format!("c15 match {} | {}", lang.show(), hexes.join(" ")), &verdicts.join(" "));
         }
         if self.out.evaluations % 7 == 0 {
-            self.out.sample(json!({"re": res, "nfa_states": nfa.size(), "dfa_states": table.ids.len(), "words": words.len(), "enumerated_up_to": maxlen}));
+            self.out.sample(json!({"re": src, "nfa_states": nfa.size(), "dfa_states": table.ids.len(), "words": words.len(), "enumerated_up_to": maxlen}));
         }
     }
 }
@@ -863,18 +1051,18 @@ fn main() {
     let mut rng = Rng::new(cfg.seed);
 
     if let Some(replay) = &cfg.replay {
-        // re-run one recorded failure: the expression and its word, plus the enumeration
+        // re-run one recorded failure: the subject with the thorough enumeration, then its word
         let input = &replay["failure"]["input"];
-        let res = input["re"].as_str().unwrap_or("").to_string();
-        let toks: Vec<&str> = res.split(' ').collect();
-        if let Some(re) = Re::parse(&mut toks.iter()) {
+        let src = input["re"].as_str().unwrap_or("").to_string();
+        if let Some(subject) = Subject::parse(&src) {
             ctx.enum_budget = 6000;
-            ctx.check_expr(&re, &mut rng, "replay");
+            ctx.check_subject(&subject, &mut rng, "replay");
             if let Some(h) = input["word"].as_str() {
                 let w: Vec<u8> = if h == "-" { vec![] } else { (0..h.len() / 2).filter_map(|i| u8::from_str_radix(&h[2 * i..2 * i + 2], 16).ok()).collect() };
-                if let Ok((_, dfa)) = guarded(|| { let n = re.build(); let d = n.compile(); (n, d) }) {
-                    let alphabet = effective_alphabet(&re);
-                    ctx.check_word(&re, &res, &dfa, &alphabet, &w);
+                if let Ok((_, dfa)) = guarded(|| { let n = subject.build(); let d = n.compile(); (n, d) }) {
+                    let lang = subject.lang();
+                    let alphabet = effective_alphabet(&lang);
+                    ctx.check_word(&subject, &lang, &src, &dfa, &alphabet, &HashSet::new(), &w);
                 }
             }
         } else {
@@ -885,26 +1073,36 @@ fn main() {
     }
 
     for re in corner_cases() {
-        ctx.check_expr(&re, &mut rng, "corner");
+        ctx.check_subject(&Subject::Expr(re), &mut rng, "corner");
+    }
+    for ms in production_corner_cases() {
+        ctx.check_subject(&Subject::Production(ms), &mut rng, "corner-production");
     }
     let n_random: usize = if cfg.thorough { 100_000 } else { 4_000 };
     let mut made = 0;
     while made < n_random {
         let depth = 1 + (made % 6);
-        let (re, class) = match made % 10 {
-            0..=5 => (gen_re(&mut rng, depth), "plain"),
-            6 => (gen_loopy(&mut rng, depth), "loopy"),
-            7..=8 => (gen_tagged(&mut rng, depth), "tagged-choice"),
+        let (subject, class) = match made % 12 {
+            0..=5 => (Subject::Expr(gen_re(&mut rng, depth)), "plain"),
+            6 => (Subject::Expr(gen_loopy(&mut rng, depth)), "loopy"),
+            7..=8 => (Subject::Expr(gen_tagged(&mut rng, depth)), "tagged-choice"),
+            9 => {
+                // choice of tagged choices (tags of nested choices: C15_tags_choice)
+                let k = rng.range(1, 3) as usize;
+                (Subject::Expr(Alt((0..k).map(|_| gen_tagged(&mut rng, depth.saturating_sub(1))).collect())), "nested-tagged-choice")
+            }
+            10 => (Subject::Production(gen_production(&mut rng, depth)), "production-shape"),
             _ => {
                 let e = gen_re(&mut rng, depth);
-                (sprinkle_tags(&mut rng, e), "tags-anywhere")
+                (Subject::Expr(sprinkle_tags(&mut rng, e)), "tags-anywhere")
             }
         };
-        if re.nodes() > 48 || re.depth() > 6 {
+        let lang = subject.lang();
+        if lang.nodes() > 48 || lang.depth() > 6 {
             continue;
         }
         made += 1;
-        ctx.check_expr(&re, &mut rng, class);
+        ctx.check_subject(&subject, &mut rng, class);
     }
     ctx.out.extra("exhaustive", json!(false));
     ctx.out.extra(
@@ -912,6 +1110,6 @@ fn main() {
         json!("bisimulation of the compiled DFA with the model's subset automaton: all reachable state pairs x all 256 bytes; all strings up to the recorded length over the effective alphabet against the Rust oracle"),
     );
     ctx.out.finish(
-        "expressions: fixed corner cases (optional/one-or-more/zero-or-more over operands that begin or end with a loop, empty sequence/choice, empty/nothing operands, tagged choices, production-like shapes) + random trees of depth <= 6 with <= 48 nodes over literals of a,b,c and byte predicates; non-trivial = at least 3 nodes; distinct by expression text. Per expression: NFA dump equality, exhaustive DFA bisimulation, all strings up to length L (budget-limited, L <= 6) over the effective alphabet, members and mutants",
+        "expressions: fixed corner cases (optional/one-or-more/zero-or-more over operands that begin or end with a loop, empty sequence/choice, empty/nothing operands, tagged choices, production-like shapes) + random trees of depth <= 6 with <= 48 nodes over literals of a,b,c and multi-byte UTF-8 strings and byte predicates (upper half and 0xFF included), choices of tagged choices, and matchers combined as MatcherAutomata::new combines them (tags_map + tag_stop_state per parsed matcher, tags_map(Item) for item tables); non-trivial = at least 3 nodes; distinct by expression text. Per expression: NFA dump equality, exhaustive DFA bisimulation, all strings up to length L (budget-limited, L <= 6) over the effective alphabet, members and mutants",
     );
 }
